@@ -22,6 +22,9 @@ type c13State struct {
 	ringMax map[uint32]int
 	// last served non-incremental stream per urgency (0 = none / moved / closed)
 	lastNonInc [8]uint32
+	// consecutive stream-frame Pops of an urgency level that served incremental streams
+	// although a non-incremental stream of that level was sendable each time
+	nonIncWait [8]int
 
 	servedInc     map[uint32]int
 	sawTwoLevels  bool
@@ -65,6 +68,7 @@ func (st *c13State) postPop(w *c12World, p c12Popped) error {
 			for id := range st.wait {
 				delete(st.wait, id)
 			}
+			st.nonIncWait = [8]int{}
 		}
 		return nil
 	}
@@ -130,6 +134,30 @@ func (st *c13State) postPop(w *c12World, p c12Popped) error {
 		if !live[id] {
 			delete(st.wait, id)
 			delete(st.ringMax, id)
+		}
+	}
+	// (2b) the non-incremental class of this level is not starved by the incremental one
+	// (the scheduler alternates between the two classes on consecutive stream-frame
+	// Pops, so 1 is what it promises; 3 is the tolerance used here)
+	var nonIncSendable *c13Snap
+	for _, sn := range st.sendable {
+		if sn.u == st.minU && sn.i == 0 && nonIncSendable == nil {
+			nonIncSendable = sn
+		}
+	}
+	for u := range st.nonIncWait {
+		if uint8(u) != st.minU || xs.i == 0 || nonIncSendable == nil {
+			st.nonIncWait[u] = 0
+		}
+	}
+	if xs.u == st.minU && xs.i == 1 && nonIncSendable != nil {
+		st.nonIncWait[xs.u]++
+		if st.nonIncWait[xs.u] >= 2 {
+			w.rec.Class("non-incremental-passed-over-twice")
+		}
+		if st.nonIncWait[xs.u] > 3 {
+			return w.errf("non-incremental stream %d (urgency %d) has the sendable frame %v, but the last %d stream-frame Pops of that urgency level all served incremental streams",
+				nonIncSendable.s.id, xs.u, nonIncSendable.s.q[0], st.nonIncWait[xs.u])
 		}
 	}
 	if xs.i == 1 {
